@@ -1,6 +1,7 @@
 package main
 
 import (
+	"golang.org/x/tools/go/ssa"
 	"flag"
 	"fmt"
 	"os"
@@ -65,8 +66,25 @@ func devMain(args []string) {
 	}
 	fmt.Println("load+ssa", time.Since(t0).Round(time.Millisecond))
 	in := &Instance{Pkg: *pkg, Func: *fn, Params: parseParams(*ps), MaxPaths: *maxPaths}
+	if os.Getenv("SYMGO_PROF") != "" {
+		profSteps = map[*ssa.Function]int{}
+	}
 	r := l.runInstance(in, strings.Split(*solver, ","), *qt)
 	printResult(r)
+	if profSteps != nil {
+		type kv struct {
+			f string
+			n int
+		}
+		var xs []kv
+		for f, n := range profSteps {
+			xs = append(xs, kv{f.String(), n})
+		}
+		sort.Slice(xs, func(i, j int) bool { return xs[i].n > xs[j].n })
+		for i := 0; i < 12 && i < len(xs); i++ {
+			fmt.Printf("  prof %10d %s\n", xs[i].n, xs[i].f)
+		}
+	}
 	if *replay {
 		rp := NewReplayer()
 		defer rp.Close()
